@@ -10,6 +10,7 @@ pub mod parsers;
 pub mod sched;
 pub mod rtrnet;
 pub mod clibin;
+pub mod httpsrv;
 pub mod c01;
 pub mod c02;
 pub mod c03;
